@@ -129,6 +129,8 @@ var c20PairKinds = []struct{ Name, SQLa, SQLb, TypesB string }{
 	// and strings in the other (facts about an expression remembered per text would leak)
 	{"func_arg_types", "SELECT id, abs(a + b) AS r, round(a + b, 1) AS q FROM stream", "SELECT id, concat(a + b, '!') AS r, upper(a + b) AS q FROM stream", "string"},
 	{"agg_arg_types", "SELECT p, sum(a + b) AS r, count(*) AS c FROM stream GROUP BY p, CountingWindow(2)", "SELECT p, max(a + b) AS r, count(*) AS c FROM stream GROUP BY p, CountingWindow(2)", "string"},
+	// expr('...'): an expression string evaluated through the process-wide bridge, per row
+	{"expr_fn", "SELECT id, a, expr('a * 2') AS d FROM stream", "SELECT id, a, expr('a * 2') AS d, expr('a + b') AS e FROM stream", "float"},
 	// near twins: different queries whose expression texts differ only in letter case or spacing
 	// (process-wide caches keyed by a normalised form of the text would confuse them)
 	{"near_literal_case", "SELECT id, concat(s, '-Alert') AS t FROM stream", "SELECT id, concat(s, '-alert') AS t FROM stream", "int"},
